@@ -1037,6 +1037,26 @@ def _eq(val1, val2) -> float:
     return _eq_distance(val1, val2)
 
 
+def _as_builtin_string(value):
+    """Provides an instance of a str/bytes/bytearray subclass as an exact built-in copy.
+
+    The distance heuristics for strings look at lengths and characters. For an instance
+    of a subclass this would run methods (`__len__`, `__getitem__`, `__iter__`, `decode`)
+    that the subclass may override, although the subject under test never calls them.
+    The copy is made by the built-in base type itself, no overridable method is involved.
+
+    Args:
+        value: an arbitrary value
+
+    Returns:
+        An exact str/bytes/bytearray with the same content, or the value itself
+    """
+    for base in (str, bytes, bytearray):
+        if isinstance(value, base) and type(value) is not base:
+            return base.__getitem__(value, slice(None))
+    return value
+
+
 def _eq_distance(val1, val2) -> float:
     """Estimates how far two values that are not equal are from being equal.
 
@@ -1049,6 +1069,7 @@ def _eq_distance(val1, val2) -> float:
     Returns:
         the distance
     """
+    val1, val2 = _as_builtin_string(val1), _as_builtin_string(val2)
     if is_numeric(val1) and is_numeric(val2):
         return float(abs(val1 - val2))
     if is_string(val1) and is_string(val2):
@@ -1100,6 +1121,7 @@ def _lt_distance(val1, val2) -> float:
     Returns:
         the distance
     """
+    val1, val2 = _as_builtin_string(val1), _as_builtin_string(val2)
     if is_numeric(val1) and is_numeric(val2):
         return (float(val1) - float(val2)) + 1.0
     if is_string(val1) and is_string(val2):
@@ -1136,6 +1158,7 @@ def _le_distance(val1, val2) -> float:
     Returns:
         the distance
     """
+    val1, val2 = _as_builtin_string(val1), _as_builtin_string(val2)
     if is_numeric(val1) and is_numeric(val2):
         return float(val1) - float(val2)
     if is_string(val1) and is_string(val2):
